@@ -377,10 +377,25 @@ def cli_partition(rec, rnd, tmp, k):
                                     sorted((m['name'], round(m['total'], 2), m['count']) for m in js.get('merchants', [])))   # (the category LABEL of a merchant fed by two rules is not a figure)
             except Exception as e:
                 results[variant] = ('unparsable', str(e)[:100])
+            if variant == 'split' and results[variant][0] == 'ok' and results[variant][2]:
+                # the per-merchant figures `tally explain <merchant>` gives for the split budget cover ALL its sources, like the report's
+                name, tot, cnt = rnd.choice(results[variant][2])
+                pe = B.tally(root, 'explain', name, os.path.join(root, 'config'), '--format', 'json')
+                rec.count('cli_runs')
+                try:
+                    ej = _json.loads(pe.stdout[pe.stdout.index('{'):])
+                    rec.count('explain_figures_on_split_budgets')
+                    if ej.get('name') == name and (abs(ej.get('total', 0) - tot) > 0.011 or ej.get('count') != cnt):
+                        results['explain'] = (name, ej.get('total'), ej.get('count'), tot, cnt)
+                except Exception:
+                    pass
         shutil.rmtree(root, ignore_errors=True)
     rec.count('cli_partition_checks')
     case = {'kind': 'cli-partition', 'rows': rows, 'parts': parts, 'fault': fault, 'fault_at': fault_at, 'conventions': convs, 'same_name': same_name}
     a, b = results['one'], results['split']
+    if 'explain' in results:
+        x = results['explain']
+        rec.violation('explain-figures-cover-only-some-sources', f'{nparts} sources: tally explain {x[0]!r} reports total {x[1]} / count {x[2]}, the report of the same budget {x[3]} / {x[4]}', case)
     if a[0] != 'ok':
         return
     # the summary's income and net-transfer figures against the bucket model of the rows themselves
